@@ -33,6 +33,9 @@ class Monitor:
         self.fit_seen = 0
         self.min_distinct = None
         self.total_distinct = None
+        self.fit_events = 0          # from_particles / from_global calls
+        self.trainer_fitted = None   # did the most recent Trainer.run fit anything?
+        self.n_tiny_beta = 0
         self.dim = None
         self.boxes = {}
         self.train_label = {}
@@ -47,6 +50,7 @@ class Monitor:
             uu = np.asarray(u)
             mon.label_map = [int(v) for v in np.unique(lab)]
             mon.fit_seen += 1
+            mon.fit_events += 1
             mon.dim = uu.shape[1]
             mon.boxes = {}
             ww = np.asarray(weights, float)
@@ -68,10 +72,29 @@ class Monitor:
         def fg_before(cls, *a, **k):
             mon.label_map = None
             mon.boxes = {}
+            mon.fit_events += 1
         hk.wrap(ModeStatistics, "from_global", before=fg_before)
+
+        from tempest.steps.train import Trainer as _Trainer
+
+        def tr_before(self_, *a, **k):
+            return mon.fit_events
+
+        def tr_after(ctx, r, self_, *a, **k):
+            mon.trainer_fitted = mon.fit_events > ctx
+        hk.wrap(_Trainer, "run", before=tr_before, after=tr_after, label="Trainer.run(fit monitor)")
 
         def pm_before(*a, **k):
             mon.n_entries += 1
+            bnow = k["beta"] if "beta" in k else None
+            if bnow is not None and 0 < float(bnow) < 1e-4:
+                mon.n_tiny_beta += 1
+            if mon.trainer_fitted is False and len(mon.bad) < 10:
+                # MCMC is about to run with the mode set of a training step that fitted nothing (a placeholder): those modes
+                # were fitted from no particles at all
+                ms_ = k["mode_stats"] if "mode_stats" in k else a[6]
+                mon.bad.append(("mutation-with-unfitted-mode", f"the kernel is entered at beta={bnow!r} with a mode set that the training step of this iteration did not fit "
+                                f"from any particles (means {np.asarray(ms_.means).round(3).tolist()[:2]}, K={ms_.K})"))
             ass = np.asarray(k["assignments"] if "assignments" in k else a[4])
             ms = k["mode_stats"] if "mode_stats" in k else a[6]
             mon.check_entry(ass, ms)
@@ -228,6 +251,8 @@ def pool_case(seed, cfg):
             sm.commit_current_to_history()
             it = start_iter + t + 1
             beta_now = min(1.0, 0.15 * (t + 1))
+            if t == 0 and cfg.get("tiny_beta"):
+                beta_now = float(cfg["tiny_beta"])       # the first annealing step of a sharply peaked problem
             sm.update_current(dict(iter=it, beta=beta_now))
             # importance weights of the pool: emphasise/kill a mode over time
             allu = sm.get_history("u", flat=True)
@@ -316,6 +341,7 @@ def pool_case(seed, cfg):
         out["gaps"] = mon.gaps
         out["potential"] = mon.n_potential
         out["label_compared"] = getattr(mon, "n_label_compared", 0)
+        out["tiny_beta"] = mon.n_tiny_beta
     return out
 
 
@@ -389,6 +415,7 @@ def real_case(cfg, resume=False):
     out["fits"] = mon.fit_seen
     out["potential"] = mon.n_potential
     out["label_compared"] = getattr(mon, "n_label_compared", 0)
+    out["tiny_beta"] = mon.n_tiny_beta
     return out
 
 
@@ -404,6 +431,7 @@ def run():
                    decay=float(rng.choice([0.5, 1.0, 2.0])), kernel=str(rng.choice(["tpcn", "rwm"])),
                    sudden=(None if rng.random() < 0.4 else (int(rng.integers(3)), int(rng.integers(1, 5)))),
                    victim=(None if rng.random() < 0.5 else int(rng.integers(0, 12))))
+        cfg["tiny_beta"] = [None, None, None, 6.1e-5, 1e-7, 9.9e-5][i % 6]
         tasks.append(("tvf.checks.c14:pool_case", dict(seed=ck.subseed("pool", i), cfg=cfg), None))
     for i, st, val in farm.run(tasks, timeout=600, progress="C14-pools"):
         kw = tasks[i][1]
@@ -418,6 +446,7 @@ def run():
         ck.event("directed iterations (a chosen label loses all trimmed training points between refits)", val.get("directed", 0))
         ck.event("pool sequences cut short because the whole trimmed training set held <= d distinct points (not judged)", val.get("degenerate_pool", 0))
         ck.event("kernel entries (parallel_mcmc) checked", val["entries"])
+        ck.event("kernel entries at a temperature strictly between 0 and 1e-4", val.get("tiny_beta", 0))
         ck.event("walkers whose actually-used mode was identified by a noise-free probe sweep", val.get("probed", 0))
         ck.event("potential assignments (selectable pool particles) checked", val.get("potential", 0))
         ck.event("active particles whose label was compared with their training label", val.get("label_compared", 0))
@@ -443,6 +472,11 @@ def run():
                    cluster_every=[3, 2, 4, 5][i % 4], n_max_clusters=[None, 2][(i // 4) % 2], normalize=bool((i // 2) % 2),
                    mode="vec", seed=ck.subseed("used", i))
         rt.append(("tvf.checks.c14:real_case", dict(cfg=cfg, resume="used"), None))
+    for i in range(ck.pick(4, 24)):
+        # a likelihood 400 times narrower than the prior: the first annealing temperature is ~6e-5
+        cfg = dict(target="gauss2", tkw=dict(half=10.0, sd=[0.05, 0.04, 0.06][i % 3]), N=[48, 64][i % 2], n_total=[96, 128][i % 2], kernel=["tpcn", "rwm"][i % 2],
+                   resample=["mult", "syst"][(i // 2) % 2], clustering=bool((i + 1) % 2), cluster_every=[1, 2][(i // 2) % 2], mode="vec", seed=ck.subseed("narrow", i))
+        rt.append(("tvf.checks.c14:real_case", dict(cfg=cfg, resume=False), None))
     for i, st, val in farm.run(rt, timeout=900, progress="C14-runs"):
         kw = rt[i][1]
         if st == "timeout":
@@ -454,6 +488,7 @@ def run():
         ck.case(dict(real=kw["cfg"], resume=kw["resume"]), nontrivial=val["fits"] > 0)
         ck.event("monitored real runs" + (" (same object re-loaded from its own checkpoints and continued)" if kw["resume"] == "used" else " (with resume)" if kw["resume"] else ""))
         ck.event("kernel entries (parallel_mcmc) checked", val["entries"])
+        ck.event("kernel entries at a temperature strictly between 0 and 1e-4", val.get("tiny_beta", 0))
         ck.event("potential assignments (selectable pool particles) checked", val.get("potential", 0))
         ck.event("active particles whose label was compared with their training label", val.get("label_compared", 0))
         ck.event("iterations where the predicted label set had a gap", val["gaps"])
@@ -463,6 +498,7 @@ def run():
                 seen.add(key)
                 ck.violation(key, what, kw)
     ck.require_events("synthetic pool sequences through Trainer.run + Resampler.run", "kernel entries (parallel_mcmc) checked", "monitored real runs",
+                      "kernel entries at a temperature strictly between 0 and 1e-4",
                       "monitored real runs (with resume)", "monitored real runs (same object re-loaded from its own checkpoints and continued)")
     return ck.finish(
         rule="synthetic weighted multimodal pools (equal / dying mode / tight negligible-weight mode / duplicated points / three modes) pushed "
